@@ -536,3 +536,263 @@ package lorawan
 //@   modifies *p
 //@   ensures C06,C09/len: (err == nil) == (len(data) == 1)
 //@   ensures C06,C10/wire: err == nil ==> uint8(p.Class) == data[0]
+
+// ---------------------------------------------------------------------------
+// C01 / C06 / C09 / C10 / C11: identifiers, frame header pieces, join payloads
+// ---------------------------------------------------------------------------
+
+// ----- EUI64: 8 bytes, transmitted least-significant byte first (byte-reversed)
+//@ func (EUI64).MarshalBinary
+//@   props C09 C10
+//@   ensures C01,C06,C09/len: err == nil && len(result) == 8
+//@   ensures C01,C06,C11/wire: result[0] == e[7] && result[1] == e[6] && result[2] == e[5] && result[3] == e[4] && result[4] == e[3] && result[5] == e[2] && result[6] == e[1] && result[7] == e[0]
+//@   ensures C10/fresh: fresh(result)
+//@ func (*EUI64).UnmarshalBinary
+//@   props C09 C10
+//@   modifies *e
+//@   ensures C01,C06,C09,C11/len: (err == nil) == (len(data) == 8)
+//@   ensures C01,C06,C10,C11/wire: err == nil ==> e[7] == data[0] && e[6] == data[1] && e[5] == data[2] && e[4] == data[3] && e[3] == data[4] && e[2] == data[5] && e[1] == data[6] && e[0] == data[7]
+
+// ----- DevAddr: 4 bytes, transmitted least-significant byte first (byte-reversed)
+//@ func (DevAddr).MarshalBinary
+//@   props C09 C10
+//@   ensures C01,C06,C09/len: err == nil && len(result) == 4
+//@   ensures C01,C06,C11/wire: result[0] == a[3] && result[1] == a[2] && result[2] == a[1] && result[3] == a[0]
+//@   ensures C10/fresh: fresh(result)
+//@ func (*DevAddr).UnmarshalBinary
+//@   props C09 C10
+//@   modifies *a
+//@   ensures C01,C06,C09,C11/len: (err == nil) == (len(data) == 4)
+//@   ensures C01,C06,C10,C11/wire: err == nil ==> a[3] == data[0] && a[2] == data[1] && a[1] == data[2] && a[0] == data[3]
+
+// ----- NetID: 3 bytes, transmitted least-significant byte first (byte-reversed)
+//@ func (NetID).MarshalBinary
+//@   props C09 C10
+//@   ensures C01,C06,C09/len: err == nil && len(result) == 3
+//@   ensures C01,C06,C11/wire: result[0] == n[2] && result[1] == n[1] && result[2] == n[0]
+//@   ensures C10/fresh: fresh(result)
+//@ func (*NetID).UnmarshalBinary
+//@   props C09 C10
+//@   modifies *n
+//@   ensures C01,C06,C09,C11/len: (err == nil) == (len(data) == 3)
+//@   ensures C01,C06,C10,C11/wire: err == nil ==> n[2] == data[0] && n[1] == data[1] && n[0] == data[2]
+
+// ----- AES128Key: 16 bytes, transmitted least-significant byte first (byte-reversed)
+//@ func (AES128Key).MarshalBinary
+//@   props C09 C10
+//@   ensures C01,C06,C09/len: err == nil && len(result) == 16
+//@   ensures C01,C06,C11/wire: result[0] == k[15] && result[1] == k[14] && result[2] == k[13] && result[3] == k[12] && result[4] == k[11] && result[5] == k[10] && result[6] == k[9] && result[7] == k[8] && result[8] == k[7] && result[9] == k[6] && result[10] == k[5] && result[11] == k[4] && result[12] == k[3] && result[13] == k[2] && result[14] == k[1] && result[15] == k[0]
+//@   ensures C10/fresh: fresh(result)
+//@ func (*AES128Key).UnmarshalBinary
+//@   props C09 C10
+//@   modifies *k
+//@   ensures C01,C06,C09,C11/len: (err == nil) == (len(data) == 16)
+//@   ensures C01,C06,C10,C11/wire: err == nil ==> k[15] == data[0] && k[14] == data[1] && k[13] == data[2] && k[12] == data[3] && k[11] == data[4] && k[10] == data[5] && k[9] == data[6] && k[8] == data[7] && k[7] == data[8] && k[6] == data[9] && k[5] == data[10] && k[4] == data[11] && k[3] == data[12] && k[2] == data[13] && k[1] == data[14] && k[0] == data[15]
+
+// ----- DevNonce (2, LE), JoinNonce (3, LE, < 2^24)
+//@ func (DevNonce).MarshalBinary
+//@   props C09 C10
+//@   ensures C01,C06,C09/len: err == nil && len(result) == 2
+//@   ensures C01,C06/wire: le16(result[0], result[1]) == uint16(n)
+//@   ensures C10/fresh: fresh(result)
+//@ func (*DevNonce).UnmarshalBinary
+//@   props C09 C10
+//@   modifies *n
+//@   ensures C01,C06,C09/len: (err == nil) == (len(data) == 2)
+//@   ensures C01,C06,C10/wire: err == nil ==> uint16(*n) == le16(data[0], data[1])
+//@ func (JoinNonce).MarshalBinary
+//@   props C09 C10
+//@   ensures C01/range: (err == nil) == (uint32(n) < 16777216)
+//@   ensures C01,C06,C09/len: err == nil ==> len(result) == 3
+//@   ensures C01,C06/wire: err == nil ==> le24(result[0], result[1], result[2]) == uint32(n)
+//@   ensures C10/fresh: err == nil ==> fresh(result)
+//@ func (*JoinNonce).UnmarshalBinary
+//@   props C09 C10
+//@   modifies *n
+//@   ensures C01,C06,C09/len: (err == nil) == (len(data) == 3)
+//@   ensures C01,C06,C10/wire: err == nil ==> uint32(*n) == le24(data[0], data[1], data[2])
+
+// ----- MHDR: MType(7..5) RFU(4..2) Major(1..0)
+//@ func (MHDR).MarshalBinary
+//@   props C09 C10
+//@   ensures C01,C06,C09/len: err == nil && len(result) == 1
+//@   ensures C01,C06/wire: result[0] == (uint8(h.MType) & 7) << 5 | uint8(h.Major) & 3
+//@   ensures C10/fresh: fresh(result)
+//@ func (*MHDR).UnmarshalBinary
+//@   props C09 C10
+//@   modifies *h
+//@   ensures C01,C06,C09/len: (err == nil) == (len(data) == 1)
+//@   ensures C01,C06,C10/wire: err == nil ==> uint8(h.MType) == data[0] >> 5 && uint8(h.Major) == data[0] & 3
+
+// ----- FCtrl: ADR(7) ADRACKReq(6) ACK(5) FPending|ClassB(4) FOptsLen(3..0)
+//@ func (FCtrl).MarshalBinary
+//@   props C09 C10
+//@   ensures C01/range: (err == nil) == (c.fOptsLen <= 15)
+//@   ensures C01,C06,C09/len: err == nil ==> len(result) == 1
+//@   ensures C01,C06/wire: err == nil ==> result[0] == b2u8(c.ADR)<<7 | b2u8(c.ADRACKReq)<<6 | b2u8(c.ACK)<<5 | b2u8(c.ClassB || c.FPending)<<4 | c.fOptsLen
+//@   ensures C10/fresh: fresh(result)
+//@ func (*FCtrl).UnmarshalBinary
+//@   props C09 C10
+//@   modifies *c
+//@   ensures C01,C06,C09/len: (err == nil) == (len(data) == 1)
+//@   ensures C01,C06,C10/wire: err == nil ==> c.ADR == bit(data[0], 7) && c.ADRACKReq == bit(data[0], 6) && c.ACK == bit(data[0], 5) && c.ClassB == bit(data[0], 4) && c.FPending == bit(data[0], 4) && c.fOptsLen == data[0] & 0x0f
+
+// ----- JoinRequest: JoinEUI(8) DevEUI(8) DevNonce(2), all little endian
+//@ spec rev8eq(r, o, e) = r[o+0] == e[7] && r[o+1] == e[6] && r[o+2] == e[5] && r[o+3] == e[4] && r[o+4] == e[3] && r[o+5] == e[2] && r[o+6] == e[1] && r[o+7] == e[0]
+//@ spec rev4eq(r, o, e) = r[o+0] == e[3] && r[o+1] == e[2] && r[o+2] == e[1] && r[o+3] == e[0]
+//@ spec rev3eq(r, o, e) = r[o+0] == e[2] && r[o+1] == e[1] && r[o+2] == e[0]
+//@ func (JoinRequestPayload).MarshalBinary
+//@   props C09 C10
+//@   ensures C01,C06,C09/len: err == nil && len(result) == 18
+//@   ensures C01,C06/wire: rev8eq(result, 0, p.JoinEUI) && rev8eq(result, 8, p.DevEUI) && le16(result[16], result[17]) == uint16(p.DevNonce)
+//@   ensures C10/fresh: fresh(result)
+//@ func (*JoinRequestPayload).UnmarshalBinary
+//@   props C09 C10
+//@   modifies *p
+//@   ensures C01,C06,C09/len: (err == nil) == (len(data) == 18)
+//@   ensures C01,C06,C10/wire: err == nil ==> rev8eq(data, 0, p.JoinEUI) && rev8eq(data, 8, p.DevEUI) && uint16(p.DevNonce) == le16(data[16], data[17])
+
+// ----- RejoinRequest type 0/2: RejoinType(1) NetID(3) DevEUI(8) RJcount0(2)
+//@ func (RejoinRequestType02Payload).MarshalBinary
+//@   props C09 C10
+//@   ensures C01/range: (err == nil) == (p.RejoinType == 0 || p.RejoinType == 2)
+//@   ensures C01,C06,C09/len: err == nil ==> len(result) == 14
+//@   ensures C01,C06/wire: err == nil ==> result[0] == uint8(p.RejoinType) && rev3eq(result, 1, p.NetID) && rev8eq(result, 4, p.DevEUI) && le16(result[12], result[13]) == p.RJCount0
+//@   ensures C10/fresh: err == nil ==> fresh(result)
+//@ func (*RejoinRequestType02Payload).UnmarshalBinary
+//@   props C09 C10
+//@   modifies *p
+//@   ensures C01,C06,C09/len: (err == nil) == (len(data) == 14)
+//@   ensures C01,C06,C10/wire: err == nil ==> uint8(p.RejoinType) == data[0] && rev3eq(data, 1, p.NetID) && rev8eq(data, 4, p.DevEUI) && p.RJCount0 == le16(data[12], data[13])
+
+// ----- RejoinRequest type 1: RejoinType(1) JoinEUI(8) DevEUI(8) RJcount1(2)
+//@ func (RejoinRequestType1Payload).MarshalBinary
+//@   props C09 C10
+//@   ensures C01/range: (err == nil) == (p.RejoinType == 1)
+//@   ensures C01,C06,C09/len: err == nil ==> len(result) == 19
+//@   ensures C01,C06/wire: err == nil ==> result[0] == uint8(p.RejoinType) && rev8eq(result, 1, p.JoinEUI) && rev8eq(result, 9, p.DevEUI) && le16(result[17], result[18]) == p.RJCount1
+//@   ensures C10/fresh: err == nil ==> fresh(result)
+//@ func (*RejoinRequestType1Payload).UnmarshalBinary
+//@   props C09 C10
+//@   modifies *p
+//@   ensures C01,C06,C09/len: (err == nil) == (len(data) == 19)
+//@   ensures C01,C06,C10/wire: err == nil ==> uint8(p.RejoinType) == data[0] && rev8eq(data, 1, p.JoinEUI) && rev8eq(data, 9, p.DevEUI) && p.RJCount1 == le16(data[17], data[18])
+
+// ----- CFList (type 0): five 3-byte little-endian frequencies in 100 Hz units
+//@ spec cfl_ok(f) = f % 100 == 0 && f / 100 < 16777216
+//@ func (CFListChannelPayload).MarshalBinary
+//@   props C09 C10
+//@   ensures C01/range: (err == nil) == (cfl_ok(p.Channels[0]) && cfl_ok(p.Channels[1]) && cfl_ok(p.Channels[2]) && cfl_ok(p.Channels[3]) && cfl_ok(p.Channels[4]))
+//@   ensures C01,C06,C09/len: err == nil ==> len(result) == 15
+//@   ensures C01,C06/wire: err == nil ==> le24(result[0], result[1], result[2]) == p.Channels[0] / 100 && le24(result[3], result[4], result[5]) == p.Channels[1] / 100 && le24(result[6], result[7], result[8]) == p.Channels[2] / 100 && le24(result[9], result[10], result[11]) == p.Channels[3] / 100 && le24(result[12], result[13], result[14]) == p.Channels[4] / 100
+//@   ensures C10/fresh: err == nil ==> fresh(result)
+//@ func (*CFListChannelPayload).UnmarshalBinary
+//@   props C09 C10
+//@   modifies *p
+//@   ensures C09/len: (err == nil) == (len(data) <= 15 && len(data) % 3 == 0)
+//@   ensures C01,C06/wire: err == nil && len(data) == 15 ==> p.Channels[0] == le24(data[0], data[1], data[2]) * 100 && p.Channels[1] == le24(data[3], data[4], data[5]) * 100 && p.Channels[2] == le24(data[6], data[7], data[8]) * 100 && p.Channels[3] == le24(data[9], data[10], data[11]) * 100 && p.Channels[4] == le24(data[12], data[13], data[14]) * 100
+
+// ----- DataPayload
+//@ func (DataPayload).MarshalBinary
+//@   props C09 C10
+//@   ensures C01/same: err == nil && result == p.Bytes
+//@ func (*DataPayload).UnmarshalBinary
+//@   props C09 C10
+//@   modifies *p
+//@   ensures C01,C09/len: err == nil && len(p.Bytes) == len(data)
+//@   ensures C01/copy: forall i int :: 0 <= i && i < len(data) ==> p.Bytes[i] == data[i]
+//@   ensures C10/fresh: fresh(p.Bytes)
+
+// ---------------------------------------------------------------------------
+// MAC-command registry (C06: sizes and payload types per (direction, CID), from
+// LoRaWAN 1.0.3 / 1.1 §5; C07: proprietary registration; C09: sizes >= 1 so that the
+// stream decoder always advances)
+// ---------------------------------------------------------------------------
+
+// entries for the standard CIDs (< 0x80) are what package init put there; proprietary
+// entries (>= 0x80) are added by RegisterProprietaryMACCommand
+//@ mutable macPayloadRegistry depth=1 keys>=128
+//@ ginv registry_ok: forall up bool, c CID :: (c >= 128 && haskey(macPayloadRegistry[up], c)) ==> macPayloadRegistry[up][c].size >= 1 && macPayloadRegistry[up][c].size <= 255 && macPayloadRegistry[up][c].payload == funcid("RegisterProprietaryMACCommand$1")
+
+//@ func GetMACPayloadAndSize
+//@   props C06 C07 C09
+//@   uses registry_ok
+//@   ensures ok: err == nil ==> result0 != nil && result1 >= 1 && result1 <= 255 && result1 == macPayloadRegistry[uplink][c].size && haskey(macPayloadRegistry[uplink], c)
+//@   ensures unknown: err != nil ==> !haskey(macPayloadRegistry[uplink], c)
+//@   ensures C06,C07,C09/down_ResetConf: !uplink && c == ResetConf ==> err == nil && result1 == 1 && istype(result0, "*ResetConfPayload")
+//@   ensures C06,C07,C09/down_LinkCheckAns: !uplink && c == LinkCheckAns ==> err == nil && result1 == 2 && istype(result0, "*LinkCheckAnsPayload")
+//@   ensures C06,C07,C09/down_LinkADRReq: !uplink && c == LinkADRReq ==> err == nil && result1 == 4 && istype(result0, "*LinkADRReqPayload")
+//@   ensures C06,C07,C09/down_DutyCycleReq: !uplink && c == DutyCycleReq ==> err == nil && result1 == 1 && istype(result0, "*DutyCycleReqPayload")
+//@   ensures C06,C07,C09/down_RXParamSetupReq: !uplink && c == RXParamSetupReq ==> err == nil && result1 == 4 && istype(result0, "*RXParamSetupReqPayload")
+//@   ensures C06,C07,C09/down_NewChannelReq: !uplink && c == NewChannelReq ==> err == nil && result1 == 5 && istype(result0, "*NewChannelReqPayload")
+//@   ensures C06,C07,C09/down_RXTimingSetupReq: !uplink && c == RXTimingSetupReq ==> err == nil && result1 == 1 && istype(result0, "*RXTimingSetupReqPayload")
+//@   ensures C06,C07,C09/down_TXParamSetupReq: !uplink && c == TXParamSetupReq ==> err == nil && result1 == 1 && istype(result0, "*TXParamSetupReqPayload")
+//@   ensures C06,C07,C09/down_DLChannelReq: !uplink && c == DLChannelReq ==> err == nil && result1 == 4 && istype(result0, "*DLChannelReqPayload")
+//@   ensures C06,C07,C09/down_RekeyConf: !uplink && c == RekeyConf ==> err == nil && result1 == 1 && istype(result0, "*RekeyConfPayload")
+//@   ensures C06,C07,C09/down_ADRParamSetupReq: !uplink && c == ADRParamSetupReq ==> err == nil && result1 == 1 && istype(result0, "*ADRParamSetupReqPayload")
+//@   ensures C06,C07,C09/down_DeviceTimeAns: !uplink && c == DeviceTimeAns ==> err == nil && result1 == 5 && istype(result0, "*DeviceTimeAnsPayload")
+//@   ensures C06,C07,C09/down_ForceRejoinReq: !uplink && c == ForceRejoinReq ==> err == nil && result1 == 2 && istype(result0, "*ForceRejoinReqPayload")
+//@   ensures C06,C07,C09/down_RejoinParamSetupReq: !uplink && c == RejoinParamSetupReq ==> err == nil && result1 == 1 && istype(result0, "*RejoinParamSetupReqPayload")
+//@   ensures C06,C07,C09/down_PingSlotChannelReq: !uplink && c == PingSlotChannelReq ==> err == nil && result1 == 4 && istype(result0, "*PingSlotChannelReqPayload")
+//@   ensures C06,C07,C09/down_BeaconFreqReq: !uplink && c == BeaconFreqReq ==> err == nil && result1 == 3 && istype(result0, "*BeaconFreqReqPayload")
+//@   ensures C06,C07,C09/down_DeviceModeConf: !uplink && c == DeviceModeConf ==> err == nil && result1 == 1 && istype(result0, "*DeviceModeConfPayload")
+//@   ensures C06,C07,C09/up_ResetInd: uplink && c == ResetInd ==> err == nil && result1 == 1 && istype(result0, "*ResetIndPayload")
+//@   ensures C06,C07,C09/up_LinkADRAns: uplink && c == LinkADRAns ==> err == nil && result1 == 1 && istype(result0, "*LinkADRAnsPayload")
+//@   ensures C06,C07,C09/up_RXParamSetupAns: uplink && c == RXParamSetupAns ==> err == nil && result1 == 1 && istype(result0, "*RXParamSetupAnsPayload")
+//@   ensures C06,C07,C09/up_DevStatusAns: uplink && c == DevStatusAns ==> err == nil && result1 == 2 && istype(result0, "*DevStatusAnsPayload")
+//@   ensures C06,C07,C09/up_NewChannelAns: uplink && c == NewChannelAns ==> err == nil && result1 == 1 && istype(result0, "*NewChannelAnsPayload")
+//@   ensures C06,C07,C09/up_DLChannelAns: uplink && c == DLChannelAns ==> err == nil && result1 == 1 && istype(result0, "*DLChannelAnsPayload")
+//@   ensures C06,C07,C09/up_RekeyInd: uplink && c == RekeyInd ==> err == nil && result1 == 1 && istype(result0, "*RekeyIndPayload")
+//@   ensures C06,C07,C09/up_RejoinParamSetupAns: uplink && c == RejoinParamSetupAns ==> err == nil && result1 == 1 && istype(result0, "*RejoinParamSetupAnsPayload")
+//@   ensures C06,C07,C09/up_PingSlotInfoReq: uplink && c == PingSlotInfoReq ==> err == nil && result1 == 1 && istype(result0, "*PingSlotInfoReqPayload")
+//@   ensures C06,C07,C09/up_PingSlotChannelAns: uplink && c == PingSlotChannelAns ==> err == nil && result1 == 1 && istype(result0, "*PingSlotChannelAnsPayload")
+//@   ensures C06,C07,C09/up_BeaconFreqAns: uplink && c == BeaconFreqAns ==> err == nil && result1 == 1 && istype(result0, "*BeaconFreqAnsPayload")
+//@   ensures C06,C07,C09/up_DeviceModeInd: uplink && c == DeviceModeInd ==> err == nil && result1 == 1 && istype(result0, "*DeviceModeIndPayload")
+//@   ensures C06,C07/down_none: !uplink && c < 128 && c != ResetConf && c != LinkCheckAns && c != LinkADRReq && c != DutyCycleReq && c != RXParamSetupReq && c != NewChannelReq && c != RXTimingSetupReq && c != TXParamSetupReq && c != DLChannelReq && c != RekeyConf && c != ADRParamSetupReq && c != DeviceTimeAns && c != ForceRejoinReq && c != RejoinParamSetupReq && c != PingSlotChannelReq && c != BeaconFreqReq && c != DeviceModeConf ==> err != nil
+//@   ensures C06,C07/up_none: uplink && c < 128 && c != ResetInd && c != LinkADRAns && c != RXParamSetupAns && c != DevStatusAns && c != NewChannelAns && c != DLChannelAns && c != RekeyInd && c != RejoinParamSetupAns && c != PingSlotInfoReq && c != PingSlotChannelAns && c != BeaconFreqAns && c != DeviceModeInd ==> err != nil
+//@   ensures C07,C09/proprietary: err == nil && c >= 128 ==> istype(result0, "*ProprietaryMACCommandPayload")
+//@   ensures C10/fresh: err == nil ==> fresh(result0)
+//@   ensures C07,C09/nopayload: err != nil ==> result0 == nil && result1 == 0
+
+//@ func RegisterProprietaryMACCommand
+//@   props C07 C09 C10
+//@   uses registry_ok
+//@   modifies macPayloadRegistry[uplink]
+//@   ensures C07/range: (err == nil) == (cid >= 128 && payloadSize >= 0 && payloadSize <= 255)
+//@   ensures C07/noop: (err != nil || payloadSize == 0) ==> forall up bool, c CID :: haskey(macPayloadRegistry[up], c) == old(haskey(macPayloadRegistry[up], c)) && macPayloadRegistry[up][c].size == old(macPayloadRegistry[up][c].size)
+//@   ensures C07/registered: err == nil && payloadSize != 0 ==> haskey(macPayloadRegistry[uplink], cid) && macPayloadRegistry[uplink][cid].size == payloadSize
+//@   ensures C07/only: forall up bool, c CID :: (up != uplink || c != cid) ==> haskey(macPayloadRegistry[up], c) == old(haskey(macPayloadRegistry[up], c)) && macPayloadRegistry[up][c].size == old(macPayloadRegistry[up][c].size)
+
+// ----- MACCommand: CID(1) | payload of the registered size
+//@ func (*MACCommand).UnmarshalBinary
+//@   props C09 C10
+//@   uses registry_ok
+//@   modifies *m
+//@   ensures C07,C09/empty: len(data) == 0 ==> err != nil
+//@   ensures C07/cid: len(data) >= 1 ==> m.CID == CID(data[0])
+
+// ----- MAC-command stream decoder (FOpts / FRMPayload on port 0)
+//@ func decodeDataPayloadToMACCommands
+//@   props C09 C10
+//@   uses registry_ok
+//@   requires typed-nil: len(payloads) == 1 && istype(payloads[0], "*DataPayload") ==> as(payloads[0], "*DataPayload") != nil
+//@   loop 0: invariant bounds: 0 <= i && i <= len(dataPL.Bytes)
+//@   loop 0: invariant outfresh: out == nil || fresh(out)
+//@   loop 0: decreases len(dataPL.Bytes) - i
+//@   ensures C10/fresh: err == nil ==> result == nil || fresh(result)
+
+// ----- CFList (type 1): up to six 2-byte channel masks; trailing all-zero masks are padding
+//@ func (*CFListChannelMaskPayload).UnmarshalBinary
+//@   props C09 C10
+//@   modifies *p
+//@   loop 0: invariant bounds: 0 <= i && i <= len(data) / 2
+//@   loop 0: invariant pfresh: pending == nil || fresh(pending)
+//@   loop 0: invariant mfresh: p.ChannelMasks == nil || fresh(p.ChannelMasks)
+//@   loop 0: modifies p.ChannelMasks
+//@   loop 0: decreases len(data) / 2 - i
+//@   loop 1: invariant bounds: rangeindex >= 0 - 1 && rangeindex < len(pending)
+//@   loop 1: invariant mfresh: p.ChannelMasks == nil || fresh(p.ChannelMasks)
+//@   loop 1: modifies p.ChannelMasks
+//@   loop 1: decreases len(pending) - rangeindex
+//@   ensures C09/len: (err == nil) == (len(data) <= 15)
+//@   ensures C10/fresh: err == nil ==> p.ChannelMasks == nil || fresh(p.ChannelMasks)
